@@ -302,12 +302,18 @@ func c15PathsIn(dir string) c15Paths {
 	return c15Paths{out: filepath.Join(dir, "out.txt"), in: filepath.Join(dir, "in.txt"), mark: filepath.Join(dir, "started")}
 }
 
+// c15HoldMS is the sleep time of this process's detached holders (vsh spawnhold); it doubles as
+// their tag, so that a batch process kills only its own (batches run side by side).
+func c15HoldMS() string { return strconv.Itoa(70000 + os.Getpid()%20000) }
+
 func (ps c15Paths) subst(src string) string {
+	src = strings.ReplaceAll(src, "%HOLD%", c15HoldMS())
 	return strings.NewReplacer("%OUT%", ps.out, "%IN%", ps.in, "%MARK%", ps.mark).Replace(src)
 }
 
 // c15Loaded is a parsed case ready to run.
 type c15Loaded struct {
+	fileOut int // runs whose standard output was a file of the caller
 	cs    c15Case
 	env   *c15Env
 	prog  *parser.Program
@@ -749,7 +755,7 @@ func c15KillHolders() {
 			continue
 		}
 		b, err := os.ReadFile("/proc/" + e.Name() + "/cmdline")
-		if err == nil && strings.Contains(string(b), "vsh\x00sleep:70000") && strings.Contains(string(b), core.BuildDir) {
+		if err == nil && strings.Contains(string(b), "vsh\x00sleep:"+c15HoldMS()+"\x00") && strings.Contains(string(b), core.BuildDir) {
 			_ = syscall.Kill(pid, syscall.SIGKILL)
 		}
 	}
@@ -854,6 +860,7 @@ func c15BlockedCase(c *core.Ctx, cs c15Case) bool {
 		return true
 	}
 	c.Count("blocked_returned", 1)
+	c.Count("blocked_with_file_stdout", ld.fileOut)
 	c.Count("blocked_ended_"+ended, 1)
 	// latency is reported, never judged
 	c.Max("blocked_return_latency_ms_max", lat.Milliseconds())
@@ -891,6 +898,7 @@ func (ld *c15Loaded) execNotify(kind string, k int, cxCh chan<- c15Ctx) (c15Obs,
 		if f, err := os.CreateTemp("", "c15-out-*"); err == nil {
 			defer func() { _ = f.Close(); _ = os.Remove(f.Name()) }()
 			cfg.Output = f
+			ld.fileOut++
 			inner := collect
 			collect = func(o *run.Outcome) {
 				inner(o)
